@@ -91,6 +91,36 @@ def run(ctx):
                         n, 'seekable' if seekable else 'non-seekable', len(objs2), out2),
                         {'codec': cdc, 'T': c.T, 'v': c.v, 'encoding': e[1].hex(), 'n': n, 'seekable': seekable, 'sizes': sizes[:200], 'polls': sorted(polls)},
                         finding=fid)
+    # valid BER forms the encoders never produce (the independent generator's: any mix of length forms, nested and EMPTY
+    # string segments, long-form lengths, TRUE as any non-zero octet, ..), each followed by a tail: whenever the decoder
+    # returns, what it leaves is exactly the tail
+    from harness import x690gen
+    segd = lambda tg, parts: b''.join(bytes([tg, len(p)]) + p for p in parts)
+    fixed_forms = []
+    for tg, T0, val in ((0x24, ('octs',), b'abc'), (0x2c, ('str', 'UTF8String'), b'abc'), (0x36, ('str', 'IA5String'), b'abc'),
+                        (0x38, ('str', 'GeneralizedTime'), b'20200101000000Z'), (0x27, ('str', 'ObjectDescriptor'), b'abc')):
+        for parts in ([val[:2], b'', val[2:]], [b'', val], [val, b''], [b'', b'', val[:1], val[1:]], [val[:1], b'', b'', val[1:]]):
+            for wrap in (lambda x: x, lambda x: bytes([0xa3, 0x80]) + x + b'\x00\x00'):
+                TT = T0 if wrap(b'') == b'' else ('exp', (128, 0, 3), T0)
+                fixed_forms.append((TT, wrap(bytes([tg, 0x80]) + segd(4, parts) + b'\x00\x00')))
+                body = segd(4, parts)
+                fixed_forms.append((TT, wrap(bytes([tg, len(body)]) + body)))
+                inner = bytes([0x24, 0x80]) + segd(4, parts) + b'\x00\x00'
+                fixed_forms.append((TT, wrap(bytes([tg, 0x80]) + inner + b'\x00\x00')))
+    other_forms = [(U.build_type(TT), data, TT) for TT, data in fixed_forms]
+    for c in cases[:ctx.n(120, 1500)]:
+        for _ in range(2):
+            try:
+                other_forms.append((c.spec, x690gen.encode(ctx.rng, c.T, c.v), c.T))
+            except Exception:
+                ctx.stats['generator_declines'] += 1
+    for spec, data, TT in other_forms:
+        for t in (b'', b'\x05\x00', b'\x00\x00', b'\x04\x01c\x00\x00'):
+            ctx.case(('other-form', data, t), True)
+            ctx.stats['other BER forms + tail'] += 1
+            d = I.run_decode('BER', data + t, asn1Spec=spec)
+            if d[0] == 'ok' and d[2] != t:
+                ctx.prop_fail('a valid BER form followed by a tail: what is left is not the tail', {'T': TT, 'encoding': data.hex(), 'tail': t.hex(), 'returned': d[2].hex()})
     # long runs through ONE decoder: 400 encodings of every base kind and of CHOICEs (untagged / tagged, primitive and
     # constructed alternatives) back to back on a stream, and as the 400 elements of a SEQUENCE OF followed by a tail -
     # nothing a decoder keeps from one object to the next may run out or drift
